@@ -237,7 +237,7 @@ func (h *Session) Parse(p []byte) (frame Frame, err error) {
 		var arp []byte
 
 		// hard code arp validation; we don't have access to ARP frame in this package
-		if arp = frame.Payload(); len(arp) < 28 && arp[4] != 6 {
+		if arp = frame.Payload(); len(arp) < 28 || arp[4] != 6 {
 			return frame, ErrParseFrame
 		}
 		h.Statistics[PayloadARP].Count++
